@@ -28,12 +28,14 @@ CASE_TIMEOUT = 20
 DEPTH = 90            # for archives whose texts carry at most 2 '..' (almost all)
 DEEP_DEPTH = 130      # for the few archives with 3 '..' in one text
 MAX_DOTDOT = 3
+MTIME = 1600000000    # every archive member and every pre-existing file carries this modification time
 
 RULE = ('one case = initial tree of a sandbox (install directory fresh or populated, incl. user-made links; sentinel '
         'files, a directory and a link pointing back, outside) + an archive (1..8 members of kinds regular / directory / '
         'symlink / hardlink / fifo; names and link targets relative, ..-laden or absolute; any order; gzip or plain) '
         'built with tarfile and extracted by the real untar_file. Streams: benign trees, benign + one hostile member, '
-        'link-then-file-through-link, hardlink-then-overwrite, links staying inside, links re-pointed by later members, back slashes in names and targets (one odd component on POSIX), link duplication, back-link replacement, kind '
+        'link-then-file-through-link, hardlink-then-overwrite, links staying inside, links re-pointed by later members, extraction histories (an update extracted over a first version: same paths, same size and '
+        'modification time, other content) and duplicate names in one archive, back slashes in names and targets (one odd component on POSIX), link duplication, back-link replacement, kind '
         'replacement, fully random; thorough adds every archive of one or two members over a small alphabet (6 names x '
         '5 targets x 4 kinds: 72 + 5184 archives). Non-trivial = at least one member was extracted or refused for a reason other than '
         'its mere kind; distinct = distinct (initial tree, member list, compression).')
@@ -145,7 +147,8 @@ def _decorate(rng, name):
 
 
 def _data(rng):
-    return rng.choice(['x', 'payload', '', 'boom', 'new content', 'A' * 20, 'z1', 'z2'])
+    # several contents of equal length (5: as the pre-existing install/f.txt 'first'; 3: as pre/old.txt 'old'; 2; 7)
+    return rng.choice(['x', 'payload', '', 'boom', 'new content', 'A' * 20, 'z1', 'z2', 'FIRST', 'v2v2v', 'OLD', 'new', 'PAYLOAD'])
 
 
 def _reg(rng, name):
@@ -289,6 +292,41 @@ def _repoint(rng):
     return ms
 
 
+def _same_size_variant(rng, data):
+    if not data:
+        return data
+    alt = ''.join(chr(ord('a') + (ord(ch) + 7) % 26) for ch in data)
+    return alt if rng.random() < 0.8 else data
+
+
+def _history(rng):
+    """(first archive, second archive): an update of a dataset extracted over its first version (same paths; same
+    size and different content, other sizes, new files), or the same path twice in one archive (the last one wins)"""
+    v1 = [m for m in _benign(rng, rng.randint(1, 5))]
+    if rng.random() < 0.3:        # one archive, duplicate names of equal size
+        m = rng.choice([x for x in v1 if x['k'] == 'reg'] or [_reg(rng, 'f.txt')])
+        dup = dict(m, data=_same_size_variant(rng, m['data']) or 'q')
+        ms = v1 + [dup] if m in v1 else [m, dup]
+        if rng.random() < 0.3:
+            ms.append(dict(m, data=m['data'] + 'longer'))
+        return None, ms
+    v2 = []
+    for m in v1:
+        if m['k'] != 'reg':
+            v2.append(dict(m))
+            continue
+        r = rng.random()
+        if r < 0.55:
+            v2.append(dict(m, data=_same_size_variant(rng, m['data'])))
+        elif r < 0.8:
+            v2.append(dict(m, data=m['data'] + rng.choice(['+', ' updated'])))
+        elif r < 0.9:
+            v2.append(dict(m))
+    if rng.random() < 0.5:
+        v2.append(_reg(rng, rng.choice(['new_in_v2.txt', 'a/new_in_v2.txt'])))
+    return v1, (v2 or [dict(v1[0])])
+
+
 def _scenario(rng):
     r = rng.randrange(27)
     if r >= 25:
@@ -371,6 +409,11 @@ def gen_cases(rng, tier):
             ms.insert(rng.randint(0, 1), _reg(rng, 'f.txt'))
         cases.append({'pre': rng.choice(['fresh', 'populated']), 'members': ms, 'gz': rng.random() < 0.5, 'stream': 'absolute'})
     while len(cases) < n:
+        if rng.random() < 0.09:
+            first, ms = _history(rng)
+            cases.append({'pre': rng.choice(['fresh', 'fresh', 'populated']), 'first': first, 'members': ms,
+                          'gz': rng.random() < 0.5, 'stream': 'history' if first else 'duplicate-names'})
+            continue
         kind, ms = _scenario(rng)
         if kind not in ('benign',) and rng.random() < 0.3:
             rng.shuffle(ms)
@@ -436,6 +479,7 @@ def _build_tree(P, pre):
                 with open(p, 'wb') as f:
                     f.write(ent[2].encode())
                 os.chmod(p, 0o644)
+                os.utime(p, (MTIME, MTIME))      # same whole-second mtime as the archive members
                 if g:
                     groups[g] = p
 
@@ -444,7 +488,7 @@ def _build_archive(path, members, P, top, gz):
     with tarfile.open(path, 'w:gz' if gz else 'w') as t:
         for m in members:
             ti = tarfile.TarInfo(m['name'].replace('$P', P).replace('$T', top))
-            ti.mtime = 1600000000
+            ti.mtime = MTIME
             if m['k'] == 'reg':
                 data = m['data'].encode()
                 ti.type, ti.size, ti.mode = tarfile.REGTYPE, len(data), m.get('mode', 0o644)
@@ -491,6 +535,30 @@ def run_impl(case, ctx):
     old_umask = os.umask(0o022)
     try:
         _build_tree(P, case['pre'])
+        first_problem = None
+        if case.get('first'):
+            # history: a first (benign) archive is extracted by the code under test, and judged, before the one compared
+            if not _members_safe(case['first']):
+                raise ValueError('case violates the sandbox safety bound of the harness')
+            archive1 = os.path.join(os.path.realpath(ctx['tmp']), 'archive1.tar')
+            _build_archive(archive1, case['first'], P, top, False)
+            snap0 = _snapshot(top)
+            exc1 = None
+            with warnings.catch_warnings():
+                warnings.simplefilter('ignore')
+                try:
+                    untar_file(archive1, install)
+                except Exception as e:
+                    exc1 = e
+            os.unlink(archive1)
+            snap1 = _snapshot(top)
+            prel0 = os.path.relpath(P, top)
+            obs1 = {'outcome': _classify_exc(exc1), 'exc': repr(exc1), 'new_leaving': [], 'chain_ok': True,
+                    'outside_changed': [k for k in set(snap0) | set(snap1) if not (k == prel0 + '/install' or k.startswith(prel0 + '/install/'))
+                                        and (snap0.get(k) or [None])[:2] != (snap1.get(k) or [None])[:2]],
+                    'pre': {os.path.relpath(k, prel0): v for k, v in snap0.items() if k.startswith(prel0 + os.sep)},
+                    'final': {os.path.relpath(k, prel0): v for k, v in snap1.items() if k.startswith(prel0 + os.sep)}}
+            first_problem = oracle({'members': case['first']}, obs1)
         archive = os.path.join(os.path.realpath(ctx['tmp']), 'archive.tar' + ('.gz' if case['gz'] else ''))
         _build_archive(archive, case['members'], P, top, case['gz'])
         before = _snapshot(top)
@@ -542,7 +610,7 @@ def run_impl(case, ctx):
         return {os.path.relpath(k, prel): v for k, v in snap.items() if k.startswith(prel + os.sep)}
     return {'outcome': _classify_exc(exc), 'exc': None if exc is None else f'{type(exc).__name__}: {exc}'.replace(P, '$P').replace(top, '$T')[:300],
             'pre': under_p(before), 'final': under_p(after), 'outside_changed': [c.replace(prel, '$P') for c in changed],
-            'chain_ok': chain_ok, 'lib': lib, 'new_leaving': [list(x) for x in new_leaving], 'P': [c for c in P.split('/') if c], 'top': top}
+            'first_problem': first_problem, 'chain_ok': chain_ok, 'lib': lib, 'new_leaving': [list(x) for x in new_leaving], 'P': [c for c in P.split('/') if c], 'top': top}
 
 
 # ---------------------------------------------------------------------------------------- oracle
@@ -586,6 +654,8 @@ def _benign_expectation(case, obs):
 
 def oracle(case, obs):
     """The property, stated directly on the observed behaviour (independent of the Coq model)."""
+    if obs.get('first_problem'):
+        return 'first archive of the history: ' + obs['first_problem']
     if obs['outside_changed'] or not obs['chain_ok']:
         return 'something outside the install directory was created or modified: ' + ','.join(obs['outside_changed'][:3])
     if obs.get('new_leaving'):
@@ -668,7 +738,7 @@ def classify(case, obs):
 
 def describe(case, obs):
     new = sorted(set(obs['final']) - set(obs['pre']))
-    return {'pre': case['pre'], 'gz': case['gz'], 'members': case['members'],
+    return {'pre': case['pre'], 'gz': case['gz'], 'first': case.get('first'), 'members': case['members'],
             'observed': {'outcome': obs['outcome'], 'exc': obs['exc'], 'created': new[:8], 'lib': obs['lib']}}
 
 
@@ -677,6 +747,9 @@ def shrink(case):
     for i in range(len(ms)):
         if len(ms) > 1:
             yield dict(case, members=ms[:i] + ms[i + 1:])
+    first = case.get('first') or []
+    for i in range(len(first)):
+        yield dict(case, first=first[:i] + first[i + 1:])
     if case['pre'] != 'fresh':
         yield dict(case, pre='fresh')
     if case['gz']:
